@@ -68,6 +68,9 @@ func main() {
 					fmt.Fprintln(os.Stderr, "seq", i, sseed)
 				}
 				runSequence(d, st, sseed, nsteps)
+				if i%4 == 0 {
+					cfgEdits(d, st, sseed, 12)
+				}
 				if st.PropertyFailures() >= 2 || len(st.Disagreements) >= 8 {
 					break
 				}
